@@ -200,9 +200,21 @@ pub fn token_module(ctx: &Ctx, idx: u64) -> Report {
                         }
                     }
                     7 => {
-                        // a token never issued
-                        let tok = gen::bytes(&mut rng, 20);
-                        let from = *ips.choose(&mut rng).unwrap();
+                        // a token never issued: random, or an issued one with a single byte altered
+                        // (any position, the last ones included), presented from the issuee's IP
+                        let (tok, from) = if !held.is_empty() && rng.gen_bool(0.6) {
+                            let (mut tk, ip, _) = held.choose(&mut rng).unwrap().clone();
+                            let at = match rng.gen_range(0..3) {
+                                0 => tk.len() - 1 - rng.gen_range(0..4),
+                                1 => rng.gen_range(0..4),
+                                _ => rng.gen_range(0..tk.len()),
+                            };
+                            tk[at] ^= 1 << rng.gen_range(0..8);
+                            report.count("near_miss_tokens_presented");
+                            (tk, ip)
+                        } else {
+                            (gen::bytes(&mut rng, 20), *ips.choose(&mut rng).unwrap())
+                        };
                         if oracle.verdict(&tok, from, t) == TokenVerdict::MustRefuse && store.checkin(from, Token::new(&tok).unwrap()) {
                             report.violation("C06", "random-token-accepted", format!("random token {} accepted from {from}", hex(&tok)), info.clone());
                             return report;
@@ -429,7 +441,15 @@ pub fn handler_history(ctx: &Ctx, idx: u64, check: &'static str) -> Report {
             Client {
                 // every fourth IPv6 client IP is the IPv4-mapped form of the IPv4 client IP with the
                 // same index (a dual-stack socket's view of that peer): different IPs for tokens
-                addr: if fam6 && ip % 4 == 3 {
+                addr: if fam6 && ip % 4 == 1 {
+                    // link-local peer as a real socket reports it: non-zero scope id and flow label
+                    std::net::SocketAddr::V6(std::net::SocketAddrV6::new(
+                        std::net::Ipv6Addr::new(0xfe80, 0, 0, 0, 0, 0, 9, ip as u16 + 1),
+                        port,
+                        0x5_1234,
+                        3,
+                    ))
+                } else if fam6 && ip % 4 == 3 {
                     std::net::SocketAddr::new(std::net::Ipv4Addr::new(30, 0, ip as u8, 1).to_ipv6_mapped().into(), port)
                 } else if fam6 {
                     v6(9, ip as u64 + 1, port)
@@ -520,6 +540,14 @@ pub fn handler_history(ctx: &Ctx, idx: u64, check: &'static str) -> Report {
                         let (tk, i) = stale_instance_tokens.choose(&mut rng).unwrap().clone();
                         (tk, Some(i), "previous-instance")
                     }
+                    3 if !held.is_empty() => {
+                        // an issued token with one byte altered (any position, the last ones included)
+                        let (mut tk, i, _) = held.choose(&mut rng).unwrap().clone();
+                        let at = if rng.gen_bool(0.5) { tk.len() - 1 - rng.gen_range(0..4.min(tk.len())) } else { rng.gen_range(0..tk.len()) };
+                        tk[at] ^= 1 << rng.gen_range(0..8);
+                        report.count("near_miss_tokens_presented");
+                        (tk, Some(i), "near-miss")
+                    }
                     _ if !held.is_empty() => {
                         // prefer recent tokens in store-heavy runs so that most announces succeed
                         let (tk, i, _) = if store_heavy && rng.gen_bool(0.8) {
@@ -536,8 +564,19 @@ pub fn handler_history(ctx: &Ctx, idx: u64, check: &'static str) -> Report {
                     Some(i) if rng.gen_bool(0.85) => SocketAddr::new(i, fresh_port()),
                     _ => client(&mut rng, ip, fam6).addr,
                 };
+                // link-local sources always carry their scope id and flow label, as a real socket reports them
+                let src = match src {
+                    SocketAddr::V6(a) if a.ip().segments()[0] == 0xfe80 => SocketAddr::V6(std::net::SocketAddrV6::new(*a.ip(), a.port(), 0x5_1234, 3)),
+                    other => other,
+                };
                 let ih = *hashes.choose(&mut rng).unwrap();
-                let port = if rng.gen_bool(0.5) {
+                // a contact of this IP already stored for this info-hash: renewing it by naming its port
+                // explicitly must hit the very same pair
+                let same_ip_port: Option<u16> = store.pairs.keys().filter(|(h, a)| *h == ih && a.ip() == src.ip()).map(|(_, a)| a.port()).next();
+                let port = if let (Some(p), true) = (same_ip_port, rng.gen_bool(0.2)) {
+                    report.count("renewals_naming_the_stored_port_explicitly");
+                    Some(p)
+                } else if rng.gen_bool(0.5) {
                     None
                 } else {
                     Some(if store_heavy {
@@ -560,10 +599,8 @@ pub fn handler_history(ctx: &Ctx, idx: u64, check: &'static str) -> Report {
                 let answers = ask!(src, q);
                 let t_arrive = t + lat;
                 let verdict = if tok.len() == 20 { tokens.verdict(&tok, src.ip(), t_arrive) } else { TokenVerdict::MustRefuse };
-                let mut contact = src;
-                if let Some(p) = port {
-                    contact.set_port(p);
-                }
+                // the contact as it appears on the wire (compact form: address and port, nothing else)
+                let contact = SocketAddr::new(src.ip(), port.unwrap_or(src.port()));
                 let key = (ih, contact);
                 let store_ok = store.would_accept(&key, t_arrive);
                 let outcome = match answers.first().map(|k| &k.body) {
